@@ -73,6 +73,7 @@ type fakeRegion struct {
 	log                       *[]string
 	handed                    *[][]byte // plaintext data keys this node returned (retained to check wiping)
 	rnd                       *simrt.Rand
+	onHand                    func([]byte) // told about every plaintext data key this node hands out
 }
 
 func (f *fakeRegion) gcm() cipher.AEAD {
@@ -105,6 +106,9 @@ func (f *fakeRegion) generate() ([]byte, []byte, error) {
 	plain := make([]byte, 32)
 	f.rnd.Fill(plain)
 	*f.handed = append(*f.handed, plain)
+	if f.onHand != nil {
+		f.onHand(plain)
+	}
 	return plain, f.seal(plain), nil
 }
 
